@@ -20,6 +20,7 @@ ASSUMPTIONS = ["rand::random_range(min..=max) returns a value in [min, max]; the
                "the model is tied to write_with_padding / send_authentication by differential execution on the cases counted below (sampling)"]
 Case = PCase
 IMPL_TIMEOUT = 900
+from . import c11 as _c11     # clause (d): ordering of bursts under concurrent writers (scheduled driver `conc`)
 
 
 def corpus_cases():
@@ -81,6 +82,13 @@ def gen_cases(tier, seed):
         for i in range(40 if tier == "quick" else 1000):
             ops = gen_shape_ops(r, sch, "c", big_ok=False)
             add("shape", ["c", hx(raw)] + ops, "shape-builtin")
+    # clause (d): every interleaving of two openers' first steps on a fresh session (quick: depth 8 = 256 schedules)
+    for c in _c11.gen_cases(tier, seed):
+        if c.kind == "exhaustive-2tasks":
+            bits = c.args[c.args.index("sched") + 1:]
+            if tier == "quick" and any(b != "1" for b in bits[8:10]):
+                continue            # depth 8 in the quick tier: keep the schedules whose 9th and 10th grants go to task 1
+            cs.append(PCase("ord_" + c.cid, c.drv, c.args, "ordering-" + c.kind, True))
     return cs
 
 
@@ -94,7 +102,7 @@ def auth_expect(c):
 
 def after_impl(cases, impl):
     for c in cases:
-        if c.cid not in impl:
+        if c.cid not in impl or c.drv in ("conc", "mtstart"):
             continue
         try:
             if c.drv == "shape":
@@ -117,6 +125,8 @@ def after_impl(cases, impl):
 
 
 def oracle(c, ir):
+    if c.drv in ("conc", "mtstart"):
+        return _c11.oracle(c, ir)      # includes: the n-th burst on the transport was shaped with packet number n
     if c.drv == "shape":
         f, _ = check_shape(c, ir, check_wire=True, check_sizes=True)
         return f
@@ -146,6 +156,8 @@ def oracle(c, ir):
 
 
 def same(c, ir, mr):
+    if c.drv in ("conc", "mtstart"):
+        return _c11.same(c, ir, mr)
     if c.drv == "shape":
         if ir.startswith("PANIC") or mr.startswith("PANIC"):
             return ir.startswith("PANIC") and mr.startswith("PANIC")
